@@ -299,6 +299,29 @@ def run_case(case, ctx):
             ctx.check("populations==expm", float(numpy.max(numpy.abs(pops2 - pops))), 0.0, dict(det17, what="propagate() repeated after a corrections call"))
         else:
             ctx.event("subaxis_rejected_by_is_subset_of")
+    # the rate matrix the propagator was given is edited afterwards (set_rate on the RateMatrix object, or element assignment on the array):
+    # the next propagation and the next propagation matrix follow the rates as they are now
+    if n >= 2:
+        a_, b_ = 0, 1
+        newv = float("%.3g" % (abs(K[a_, b_]) * 1.7 + 0.31 * kmax))
+        with ctx.lib("propagate() after the rate matrix was edited"):
+            if as_obj:
+                rmx.set_rate((a_, b_), newv)
+                K_now = numpy.array(rmx.data, dtype=float)
+            else:
+                rmx[b_, b_] += rmx[a_, b_] - newv
+                rmx[a_, b_] = newv
+                K_now = numpy.array(rmx, dtype=float)
+            pops4 = numpy.array(prop.propagate(p0.copy()))
+        x4 = float(numpy.linalg.norm(K_now, 1)) * dt
+        b4 = numpy.array([taylor_bound(x4, i) for i in range(Nt)]) + 64 * EPS
+        ref4 = numpy.array([sl.expm(K_now * (tt - t.data[0])) @ p0 for tt in t.data])
+        err4 = numpy.max(numpy.abs(pops4 - ref4), axis=1)
+        w4 = int(numpy.argmax(err4 / b4))
+        ctx.check("populations==expm", float(err4[w4]), float(b4[w4]), {"index": w4, "x": x4, "class": case["cls"], "n": n,
+                                                                       "what": "propagation after the rate matrix held by the propagator was edited",
+                                                                       "rate_matrix_given_as": "RateMatrix" if as_obj else "array"})
+        ctx.check("colsum-zero", float(numpy.max(numpy.abs(K_now.sum(axis=0)))), 64 * EPS * float(numpy.max(numpy.abs(K_now))) * n, {"what": "edited rate matrix"})
     nonzero = bool(numpy.any(K - numpy.diag(numpy.diag(K)) != 0))
     ctx.key((case["cls"], n, tuple(numpy.round(K.ravel(), 4)[:12]), Nt, stride, shift))
     ctx.nontrivial(nonzero and moved > 100 * float(bound_n[-1]))
